@@ -238,7 +238,9 @@ def corr_pyhash(ck):
 
 HAND = ['C', 'CC', 'CCO', 'CC(C)O', 'c1ccccc1', 'Cc1ccccc1', 'C1CC1', 'C1CC2CC1C2', 'C#N', '[13CH4]', '[NH4+]', '[O-]C=O', '[CH3]',
         'C[N+](C)(C)C', 'CC.CC', 'C1CCC2(CC1)CC2', 'c1ccc2ccccc2c1', 'CS(=O)(=O)N', '[Na+].[Cl-]', 'C=C=C', 'FC(F)(F)F',
-        'C12C3C4C1C5C2C3C45', '[2H]O[2H]', 'C[NH2+]C.C[NH+](C)C', 'CC(=O)Oc1ccccc1C(=O)O', '[CH2]C[CH2]', 'OCC(O)CO', 'N#CC#N']
+        'C12C3C4C1C5C2C3C45', '[2H]O[2H]', 'C[NH2+]C.C[NH+](C)C', 'CC(=O)Oc1ccccc1C(=O)O', '[CH2]C[CH2]', 'OCC(O)CO', 'N#CC#N',
+        # bonds of order 8 ('~': any / coordination bond): every bond order the containers allow must reach the fingerprint code
+        'N~[Cu]', 'Cl[Pt](Cl)(~N)~N', '[Fe]~C#O', 'CC(=O)O~[Na]', 'c1ccccc1~[Cr]', 'C~O']
 
 
 def random_graph_mol(rng, n_atoms):
@@ -261,7 +263,7 @@ def random_graph_mol(rng, n_atoms):
     p = rng.choice([0.25, 0.4, 0.6, 1.0])
     for i, j in itertools.combinations(nums, 2):
         if rng.random() < p:
-            m.add_bond(i, j, rng.choice([1, 1, 1, 2, 3]))
+            m.add_bond(i, j, rng.choice([1, 1, 1, 2, 3, 4, 8, 8]))
     return m
 
 
@@ -526,7 +528,7 @@ def corr_molecules(ck):
 # morgan_hash_smiles / morgan_smiles_hash: the model over the canonical strings observed on the implementation
 
 MS_SMILES = ['C', 'CC', 'CCO', 'CC(C)O', 'c1ccccc1', 'Cc1ccccc1', 'C1CC1', 'C#N', '[NH4+]', '[O-]C=O', 'CC.CC', '[Na+].[Cl-]', 'C=C=C', 'FC(F)(F)F',
-             'O[C@H]1C[C@@H](O)C1', 'C[C@H](O)F', 'F/C=C/F', 'C[N+](C)(C)C', 'OCC(O)CO', 'N#CC#N', 'C1CC2CC1C2', 'CS(=O)(=O)N']
+             'O[C@H]1C[C@@H](O)C1', 'C[C@H](O)F', 'F/C=C/F', 'C[N+](C)(C)C', 'OCC(O)CO', 'N#CC#N', 'C1CC2CC1C2', 'CS(=O)(=O)N', 'N~[Cu]', 'Cl[Pt](Cl)(~N)~N', '[Fe]~C#O']
 
 
 def corr_morgan_smiles(ck):
@@ -599,7 +601,7 @@ def corr_morgan_smiles(ck):
 
 REACTIONS = [('CC(=O)O', 'CC(=O)[O-]', None), ('CCO', 'CC=O', None), ('CCO.Cl', 'CCCl.O', {4: 3, 3: 4}), ('C=CC=C.C=C', 'C1CCC=CC1', {5: 6, 6: 5}),
              ('C[CH2]', 'CC', None), ('[13CH3]O', '[13CH3][O-]', None), ('CC(=O)Cl.N', 'CC(=O)N.Cl', {4: 5, 5: 4}), ('c1ccccc1', 'C1=CC=CC=C1', None),
-             ('C', 'C', None), ('OO', 'O.O', None)]
+             ('C', 'C', None), ('OO', 'O.O', None), ('N.[Cu]', 'N~[Cu]', None), ('Cl[Pt](Cl)(~N)~N', 'Cl[Pt](Cl)~N.N', None)]
 
 
 def cgr_from_dicts(atoms, bonds):
@@ -662,7 +664,7 @@ def random_cgr(rng, n_atoms):
     p = rng.choice([0.25, 0.4, 0.6, 1.0])
     for i, j in itertools.combinations(nums, 2):
         if rng.random() < p:
-            o = rng.choice([1, 1, 2, 3, 4, None])
+            o = rng.choice([1, 1, 2, 3, 4, 8, None])
             po = o if rng.random() < 0.6 else rng.choice([1, 2, 3, 4, 8, None])
             if o is None and po is None:
                 po = 1
@@ -905,7 +907,7 @@ def search_cgr(ck, tag, c, rng):
 
 
 # ------------------------------------------------------------------------------------------------------------
-# exhaustive small space: EVERY labelled graph on 1..4 atoms (numbers 1..n, elements C N O S, single bonds) x EVERY
+# exhaustive small space: EVERY labelled graph on 1..4 atoms (numbers 1..n, elements C N O S, bond orders 1 8 2 4 3 8 by pair) x EVERY
 # pair of radii in -1..5: chain set; plus fragments / hash set / Morgan dictionaries on the documented radii
 
 def all_small_graphs():
@@ -919,7 +921,7 @@ def all_small_graphs():
                 m.add_atom(Element.from_atomic_number((6, 7, 8, 16)[i - 1])(), i)
             for k, (i, j) in enumerate(pairs):
                 if mask >> k & 1:
-                    m.add_bond(i, j, 1)
+                    m.add_bond(i, j, (1, 8, 2, 4, 3, 8)[k])       # every bond order the containers allow occurs
             yield f'graph{n}:{mask}', m
 
 
@@ -1507,11 +1509,11 @@ def run(ck):
                        'molecules satisfy Graph.wf_mol (checked on every correspondence molecule); KeyError paths for dangling neighbours are not modelled; '
                        'CGR containers are modelled by Model.FingerprintCGR (skeleton with int(DynamicBond) as bond number + CGR identifier dictionary)']
     ck.extra['rule'] = ('PyHash: boundary ints around 0, -1, 2^61-1, 2^63, 2^64 and their pairs, then random ints/bools/nested tuples (depth <= 3, length <= 9) and flat int '
-                        'tuples; every case is non-trivial. Exhaustive: every labelled graph on 1..4 atoms (C N O S, single bonds) x radii -1..5 (quick: a seeded third '
+                        'tuples; every case is non-trivial. Exhaustive: every labelled graph on 1..4 atoms (C N O S, bond orders 1 8 2 4 3 8 by pair) x radii -1..5 (quick: a seeded third '
                         'of the grid for 4 atoms). Folding: the real linear_bit_set / morgan_bit_set on stub hash sets (boundary values 0, -1, +-2^63, +-2^62, '
                         'alternating bit patterns, random 64-bit values) x 57 lengths (2^0..2^33, 2^40, 2^48, non powers of two, <= 0) x active bits -1..8. '
                         'Fingerprints: empty molecule, hand-made molecules, lipophilicity.csv sample (<= 30 atoms, some renumbered / '
-                        'insertion-order shuffled), random labelled graphs of 1-7 atoms built through add_atom/add_bond with sparse numbers, charges, isotopes, radicals; '
+                        'insertion-order shuffled), random labelled graphs of 1-7 atoms built through add_atom/add_bond with sparse numbers, charges, isotopes, radicals, bond orders 1 2 3 4 8; '
                         'per molecule a random part of the grid radii (1..6 incl. min>max, min<1) x length (2^k, non powers of two, <= 0) x active bits (-1..7) x bit '
                         'pairs (-1..9), bounded by a per-molecule budget of hashed items and of chains. Search: same families, more molecules, oracle = brute-force '
                         'paths / counts / recursive Morgan / window arithmetic / renumbering / shuffling; a path case is non-trivial when there are more paths than atoms')
